@@ -571,6 +571,47 @@ func groupBy(c *core.Ctx) error {
 	}
 	c.Add("traces_validated_against_impl", int64(len(jobs)))
 	c.Logf("group-by replay done: %d evaluations, %d violations", c.Count("evaluations"), c.Violations())
+	return probes(c)
+}
+
+// probes are directed regression cases for defects that the replay found and
+// that the generated inputs now steer around (so that they do not mask
+// everything else); the oracle is the same naive evaluation.
+func probes(c *core.Ctx) error {
+	// Rows whose record type lacks the key field: every generated input writes
+	// the missing key as k:error("missing") in column 0, because the operator
+	// evaluates one cached field reference on input rows (query type context)
+	// and on spilled rows (the spiller's private context) alike.
+	rows := []inRow{{ID: 1, Key: key{P: "I1"}}, {ID: 2, Key: key{P: "I2"}}, {ID: 3, Key: key{P: "MISS"}}}
+	j := gbJob{CaseKey: "probe:absent-key-field", How: "probe", Rows: rows, Agg: "n",
+		Task: task{ID: 0, Kind: "gb", SortKey: "asc",
+			Prog:    "summarize ids:=collect(u), n:=count(), av:=avg(v) by k with -limit 1",
+			Batches: [][]string{{"{k:1,u:1}"}, {"{k:2,u:2,x:1}"}, {"{u:3}"}}}}
+	res, err := runTasks(c.Scratch, []task{j.Task}, 1)
+	if err != nil {
+		return err
+	}
+	r := res[0]
+	witness := map[string]any{"kind": "gb", "job": &j}
+	c.Eval(j.CaseKey, true)
+	if r.Crash != "" || r.Stages[0].Err != "" {
+		c.Violate("gb:crash:"+crashSig(r.Crash+r.Stages[0].Err), "group-by over rows without the key field, sorted input, limit 1: "+firstLine(r.Crash+r.Stages[0].Err), witness)
+		return nil
+	}
+	_, flat, err := projectBatches(r.Stages[0].Batches, false)
+	if err != nil {
+		c.Violate("gb:unprojectable-row:probe", err.Error(), witness)
+		return nil
+	}
+	if v := oracle(rows, flat, []string{"ids", "n"}); !v.oracleOK {
+		sig := "gb:unpredicted:probe:" + v.kind
+		for _, o := range flat {
+			if idsKey(o.IDs) == "[3]" && o.Key.P != "MISS" && len(flat) == 3 {
+				sig = "gb:typecontext:key-of-row-without-key-field-after-spill"
+			}
+		}
+		c.Violate(sig, "`"+j.Task.Prog+"` over {k:1,u:1} | {k:2,u:2,x:1} | {u:3} (declared sorted on k): "+v.detail, witness)
+	}
 	return nil
 }
 
